@@ -30,6 +30,7 @@ from abc import ABC, abstractmethod
 from random import Random
 import time
 from typing import Dict, List
+import zlib
 
 from pydsol.core.utils import get_module_logger
 import math
@@ -756,6 +757,10 @@ class SimpleStreamUpdater(StreamUpdater):
             raise TypeError("replication_nr is not an int")
         if replication_nr < 0:
             raise ValueError("replication_nr < 0")
+        # the built-in hash() of a str differs per interpreter process;
+        # the CRC-32 of the UTF-8 encoded name is the same everywhere
+        name_hash: int = zlib.crc32(stream_id.encode("utf-8",
+                                                     "surrogatepass"))
         stream.set_seed(stream.original_seed() + replication_nr * 
-                        (1_000_037 + hash(stream_id)))
+                        (1_000_037 + name_hash))
 
